@@ -208,6 +208,23 @@ func (C05) Gen(r *core.Rng, tier string, emit func(string)) {
 		}
 		emit(fmt.Sprintf("optcheck %s %d %s C %s", compName(ic), b, fmtEntries(es), cert))
 	}
+	// short lists of FAT entries (sparse IDs, scattered offsets, long lengths: well over 8 bytes each, and nothing
+	// for gzip to find): whether a list fits the root is a matter of its bytes, not of its length
+	for _, n := range []int{900, 1400, 1900, 2032, 2033} {
+		es := make([]pmtiles.EntryV3, n)
+		id := uint64(0)
+		for i := range es {
+			id += 1 + r.U64()%(1<<40)
+			es[i] = pmtiles.EntryV3{TileID: id, Offset: r.U64() % (1 << 45), Length: uint32(1 + r.U64()%(1<<28)), RunLength: uint32(1 + r.U64()%(1<<20))}
+		}
+		for _, ic := range []pmtiles.Compression{pmtiles.Gzip, pmtiles.NoCompression} {
+			cert, bad := optCertificate(es, budget, ic)
+			if bad != "" {
+				cert = "0 0 0 # " + strings.ReplaceAll(bad, " ", "_")
+			}
+			emit(fmt.Sprintf("optcheck %s %d %s C %s", compName(ic), budget, fmtEntries(es), cert))
+		}
+	}
 	// a few very large lists
 	for _, n := range []int{bigMax, bigMax/2 + 1} {
 		es := tileEntries(r, n, 1)
